@@ -446,7 +446,12 @@ def parse_single_name_into_parts(name, strict=True):
                 firstl = cases.index(0) - len(cases)
                 lastl = -cases[::-1].index(0) - 1
                 if lastl == -1:
-                    lastl -= 1  # Cannot consume the rest of the string.
+                    # Cannot consume the rest of the string: von ends with
+                    # the last lowercase word before the final word (if any).
+                    if 0 in cases[:-1]:
+                        lastl = -cases[-2::-1].index(0) - 2
+                    else:
+                        lastl -= 1
 
                 # Pull the parts out.
                 parts.first = p0[:firstl]
